@@ -31,6 +31,13 @@ class Finding:
         return f"{self.prop}/{self.rule}/{self.key}"
 
 
+#: rules that compare the *value computed* by a function with a published formula (normal forms).  When the function now calls something its reference version
+#: never mentioned (np.where, np.clip, a new helper, ...), a mismatch there is as likely a restatement the normal form does not open as a defect: the finding is
+#: withheld (undecided).  Structural rules (ordering, aliasing, plumbing, protocol) are not affected.
+FORMULA_RULES = ("R3.fourier", "R3.msm", "R3.likelihood", "R3.gsl", "R3.minkowski", "R3.term", "R3.range", "R4.rseq-points", "R1.halton-result", "R2.pipeline", "R3.shift", "R2.update",
+                 "R1.reward", "R4.system", "R3.formula", "R3.moments", "R2.wrapper", "R3.confine", "R6.pairing", "R6.identity", "R3.shock-count")
+
+
 class Context:
     """Collects obligations for one property on one program."""
 
@@ -79,6 +86,10 @@ class Context:
     def fail(self, rule: str, key: str, message: str, f: FuncInfo | None = None,
              node: ast.AST | None = None, path: list[str] | None = None) -> None:
         import os
+        if os.environ.get("SA_NEW_CALLEE_GATE", "1") != "0" and f is not None and rule.startswith(FORMULA_RULES):
+            nc = (getattr(self.prog, "alignment", None) or {}).get("new_callees", {}).get(f.qualname)
+            if nc:
+                raise AnalysisError(f"{f.qualname.split(':')[1]} now calls {nc[:4]}, which its reference version does not; what rule {rule} found there may be a reading failure")
         limit = int(os.environ.get("SA_RESTATED_LIMIT", "0") or 0)
         if limit and f is not None:
             d = (getattr(self.prog, "alignment", None) or {}).get("restated", {}).get(f.qualname, 0)
